@@ -332,21 +332,25 @@ func (l *List) Accept(sta funcGen.Stack[Value]) (*List, error) {
 	return NewListFromIterable(func(st funcGen.Stack[Value]) iterator.Producer[Value] {
 		// The source may be evaluated concurrently to the consumer of this list if
 		// the filter is run in parallel, so it gets its own stack.
-		return panicTransport(iterator.FilterAuto[Value](l.iterable(st.Derive()), func() func(v Value) (bool, error) {
-			s := st.Derive()
-			return func(v Value) (accept bool, err error) {
-				// may be called on a worker goroutine
-				defer recoverToError(&err)
-				eval, err := f.Eval(s, v)
-				if err != nil {
-					return false, err
+		return panicTransport(func(yield iterator.Consumer[Value]) {
+			guard := &stopGuard{}
+			guard.run(iterator.FilterAuto[Value](guard.source(l.iterable(st.Derive())), func() func(v Value) (bool, error) {
+				guard.workerCreated()
+				s := st.Derive()
+				return func(v Value) (accept bool, err error) {
+					// may be called on a worker goroutine
+					defer recoverToError(&err)
+					eval, err := f.Eval(s, v)
+					if err != nil {
+						return false, err
+					}
+					if accept, ok := eval.(Bool); ok {
+						return bool(accept), nil
+					}
+					return false, fmt.Errorf("function in accept does not return a bool")
 				}
-				if accept, ok := eval.(Bool); ok {
-					return bool(accept), nil
-				}
-				return false, fmt.Errorf("function in accept does not return a bool")
-			}
-		}))
+			}), yield)
+		})
 	}), nil
 }
 
@@ -358,14 +362,18 @@ func (l *List) Map(sta funcGen.Stack[Value]) (*List, error) {
 	return NewListFromSizedIterable(func(st funcGen.Stack[Value]) iterator.Producer[Value] {
 		// The source may be evaluated concurrently to the consumer of this list if
 		// the mapping is run in parallel, so it gets its own stack.
-		return panicTransport(iterator.MapAuto[Value, Value](l.iterable(st.Derive()), func() func(i int, v Value) (Value, error) {
-			s := st.Derive()
-			return func(i int, v Value) (val Value, err error) {
-				// may be called on a worker goroutine
-				defer recoverToError(&err)
-				return f.Eval(s, v)
-			}
-		}))
+		return panicTransport(func(yield iterator.Consumer[Value]) {
+			guard := &stopGuard{}
+			guard.run(iterator.MapAuto[Value, Value](guard.source(l.iterable(st.Derive())), func() func(i int, v Value) (Value, error) {
+				guard.workerCreated()
+				s := st.Derive()
+				return func(i int, v Value) (val Value, err error) {
+					// may be called on a worker goroutine
+					defer recoverToError(&err)
+					return f.Eval(s, v)
+				}
+			}), yield)
+		})
 	}, l.size), nil
 }
 
@@ -376,6 +384,45 @@ func recoverToError(err *error) {
 	if rec := recover(); rec != nil {
 		*err = parser2.AnyToError(rec)
 	}
+}
+
+// stopGuard coordinates the early stop of a stage which is possibly executed in
+// parallel (iterator.MapAuto, iterator.FilterAuto). If the consumer of a
+// parallel stage stops, the collector of the iterator package returns at once
+// and leaves its workers behind, blocked forever at sending their results. So
+// in the parallel mode the stop is not passed on: the source is ended instead
+// and the results which are still in flight are dropped, then all goroutines
+// terminate. As long as the stage runs sequentially the stop is passed on.
+type stopGuard struct {
+	workers atomic.Int32
+	stopped atomic.Bool
+}
+
+// workerCreated is to be called by the factory of the worker functions. The
+// first function created is used for the sequential execution, more functions
+// are only created at the switch to the parallel execution.
+func (g *stopGuard) workerCreated() {
+	g.workers.Add(1)
+}
+
+// source wraps the source of the stage
+func (g *stopGuard) source(p iterator.Producer[Value]) iterator.Producer[Value] {
+	return stoppableProducer(p, &g.stopped)
+}
+
+// run iterates the stage and passes the items to the consumer
+func (g *stopGuard) run(stage iterator.Producer[Value], yield iterator.Consumer[Value]) {
+	stage(func(v Value, err error) bool {
+		if g.stopped.Load() {
+			// drop the results which are still in flight
+			return true
+		}
+		if !yield(v, err) {
+			g.stopped.Store(true)
+			return g.workers.Load() > 1
+		}
+		return true
+	})
 }
 
 // panicTransport wraps a producer whose consumer is possibly called on a
